@@ -34,13 +34,19 @@ impl<T: AsFd> FdExt for T {}
 //@item src/handle.rs :: struct Handle | sub.Handle
 //@include prelude/handle.rs
 //@item src/handle.rs :: struct HandleRef | sub.HandleRef
+impl AsFd for HandleRef<'_> {
+    open spec fn fd_id(&self) -> int { self.inner.id@ }
+    fn as_fd(&self) -> (r: BorrowedFd<'_>) { self.inner }
+}
 impl HandleRef<'_> {
 //@prove handle.HandleRef.from_fd
+//@prove handle.HandleRef.try_clone
 //@prove handle.HandleRef.reopen
 }
 impl Handle {
 //@prove handle.Handle.from_fd
 //@prove handle.Handle.as_ref
+//@prove handle.Handle.try_clone
 //@prove handle.Handle.reopen
 }
 impl OpenFlags {
